@@ -28,10 +28,19 @@ def run(ctx):
             con = campaign.realizable(prog)
             if con is None:
                 continue
+            comp = None
+            if i % 3 == 0 and depth >= 2:
+                try:
+                    comp = con.compile()        # generated code cuts its regions with a helper of its own: same confinement, same absolute offsets
+                except Exception:
+                    comp = None
             for _ in range(6):
                 data = bytes(rng.choice([0, 0, 1, 2, 3, 4, 0xff, 0x80, 5]) for _ in range(rng.randint(0, 9)))
                 st = rng.choice([0, 0, 1, 2, 3])
                 ip, p = camp.parse(prog, con, b"\xee" * st + data, st, kw, tag="nest")
+                if comp is not None and p["res"]["ok"]:
+                    ic, c = camp.parse({"k": "Opaque", "desc": "compiled"}, comp, b"\xee" * st + data, st, kw, tag="nest-compiled")
+                    camp.sh.session("C04.equiv", [ip, ic])
                 if depth >= 2 or st:
                     nt += 1
                 if p["res"]["ok"] and rng.random() < 0.3:
@@ -57,5 +66,5 @@ def run(ctx):
         progs, kw, sessions, _ = speccode.explore(ctx, focus="C08", part=speccode.part_of(ctx, 24 if quick else 24))
         nt += speccode.drive(camp, progs, kw, sessions)
         vs = camp.validate()
-        campaign.judge(ctx, camp, vs, conformance=lambda v, m: campaign.kind_of(v) in KINDS and m["case"]["op"] == "parse")
+        campaign.judge(ctx, camp, vs, conformance=lambda v, m: campaign.kind_of(v) in KINDS and m["case"]["op"] == "parse", clauses=("C04.equiv",))
         ctx.cov["distinct_nontrivial"] = nt
